@@ -40,7 +40,7 @@ def run(rep, tier):
             rep.violation("SplitterModel.tla violates %s" % r.invariant_violated, payload=r.out[-4000:])
         else:
             raise CheckError("TLC failed on SplitterModel:\n" + r.out[-3000:])
-    parts, stride, nrand = (6, 64, 30) if tier == "quick" else (16, 1, 120)
+    parts, stride, nrand = (6, 64, 60) if tier == "quick" else (16, 1, 240)
 
     def drive(i):
         out = os.path.join(work, "split_%d.ndjson" % i)
